@@ -235,7 +235,8 @@ func init() {
 		n["github.com/scionproto/scion/private/ringbuf/internal/metrics.NewRingbuf"] = func(x *Exec, fr *frame, a []Value) Value {
 			hp := x.eng.pkgs["github.com/scionproto/scion/private/ringbuf"]
 			if hp == nil || hp.Type("vCounter") == nil || hp.Type("vGauge") == nil || hp.Type("vObserver") == nil {
-				x.unsupported("metrics.NewRingbuf: harness stub types not loaded")
+				// not the C48 harness: the real constructor is interpreted (prometheus is a no-op package)
+				return declineNative
 			}
 			cnt := func() Value { return Iface{t: hp.Type("vCounter").Type(), v: Struct{Iface{}}} }
 			gau := func() Value { return Iface{t: hp.Type("vGauge").Type(), v: Struct{Iface{}}} }
